@@ -597,7 +597,7 @@ Definition become_leader (r : raft) : Res raft :=
   r1 <- reset r (r_term r) ;;
   let r2 := r1 <| r_leader_id := r_id r1 |> <| r_state := Leader |> in
   let li := last_index (r_log r2) in
-  if negb (li =? persisted (r_log r2)) then Panic site_leader_persisted else
+  (* no assertion li = persisted any more (fix 19c179c): a single voter may lead with an unpersisted tail *)
   let r3 := r2 <| r_uncommitted_size := 0 |> <| r_last_log_tail_index := li |> in
   match get_pr r3 (r_id r3) with
   | None => Panic site_self_progress
@@ -678,6 +678,8 @@ Definition has_unapplied_conf_changes (r : raft) (lo hi : N) : Res bool :=
 (* Raft::hup *)
 Definition hup (r : raft) (transfer_leader : bool) : Res raft :=
   if is_leader r then Ok r else
+  (* only a voter of its own configuration campaigns (fix 8deb47c) *)
+  if negb (r_promotable r) then Ok r else
   (* below the first index everything is covered by the snapshot (fix a8252b4): the scan starts there *)
   low <- match u_maybe_first_index (unst (r_log r)) with
          | Some i => Ok i
